@@ -27,7 +27,7 @@ FLOOR = {'quick': 3000, 'thorough': 30000}
 RULE = ('four generated families: (bind) declarations with 0..4 parameters whose names mix - and _, defaults that are '
         'constants, earlier parameters (+100) or a global, an optional rest parameter, called with explicit positional and '
         'named arguments, a list splat (comma/space list, single value, empty) and a map splat, as @function, @mixin and '
-        '@content/using; valid calls and calls with too many positionals, unknown names, a parameter passed by position and '
+        '@content/using, directly or through a wrapper that forwards `$args...`; valid calls and calls with too many positionals, unknown names, a parameter passed by position and '
         'by name, a missing required parameter, a name given twice.  (return) function bodies of @if/@each/@for nests with '
         'several @return and !global tick statements, called with 3 arguments each.  (scope) 30 templates in which the '
         'definition site (global or enclosing rule) and the call site (mixin/function parameter, @each/@for variable, '
@@ -174,13 +174,22 @@ def bind_build(case, k):
     fields = [('v-%d' % i, '$' + p['use']) for i, p in enumerate(case['params'])]
     if case['rest']:
         fields += [('v-rest', 'meta.inspect($rest)'), ('v-kw', 'meta.inspect(meta.keywords($rest))')]
+    fwd = case.get('forward')       # the call goes through a wrapper that passes its argument list on with `$args...`
     if kind == 'function':
         body = '|'.join('#{%s}' % e for _, e in fields) if fields else 'none'
-        src = '@function f%s(%s) {\n  @return "%s";\n}\n.c%s {\n  p: f%s(%s);\n}\n' % (k, decl, body, k, k, call)
+        src = '@function f%s(%s) {\n  @return "%s";\n}\n' % (k, decl, body)
+        if fwd:
+            src += '@function w%s($args...) {\n  @return f%s($args...);\n}\n' % (k, k)
+        src += '.c%s {\n  p: %s%s(%s);\n}\n' % (k, 'w' if fwd else 'f', k, call)
     else:
         decls = ''.join('    %s: %s;\n' % f for f in fields) or '    v-none: 1;\n'
         if kind == 'mixin':
-            src = '@mixin m%s(%s) {\n%s}\n.c%s {\n  @include m%s(%s);\n}\n' % (k, decl, decls, k, k, call)
+            src = '@mixin m%s(%s) {\n%s}\n' % (k, decl, decls)
+            if fwd:
+                src += '@mixin w%s($args...) {\n  @include m%s($args...);\n}\n' % (k, k)
+            src += '.c%s {\n  @include %s%s(%s);\n}\n' % (k, 'w' if fwd else 'm', k, call)
+        elif fwd:
+            src = '@mixin m%s($args...) {\n  @content($args...);\n}\n.c%s {\n  @include m%s(%s) using (%s) {\n%s  }\n}\n' % (k, k, k, call, decl, decls)
         else:
             src = '@mixin m%s {\n  @content(%s);\n}\n.c%s {\n  @include m%s using (%s) {\n%s  }\n}\n' % (k, call, k, k, decl, decls)
     m = bind_model(case)
@@ -232,8 +241,10 @@ def gen_bind(rng):
                 j = rng.randrange(i)
                 d = {'t': 'param', 'i': j, 'add': 100, 'spell': flip(names[j], rng)}
         params.append({'decl': flip(nm, rng), 'use': flip(nm, rng), 'def': d})
-    unknown = rng.sample(UNKNOWN_NAMES, 3)
     want = rng.choice(['ok'] * 6 + ['too-many', 'unknown', 'both', 'missing', 'twice'])
+    unknown = rng.sample(UNKNOWN_NAMES, 3)
+    if rest and want == 'ok' and rng.random() < 0.08:
+        unknown[0] = 'rest'         # an extra keyword that is spelled like the rest parameter is still an extra keyword
     # how many parameters are filled by position
     npos = rng.randint(0, n)
     extra_pos = 0
@@ -285,7 +296,7 @@ def gen_bind(rng):
             msplat = None       # an empty map literal `()` is an empty list: not a subject
     else:
         named += [[x[0], x[1]] for x in mpairs]
-    return {'fam': 'bind', 'kind': kind, 'params': params, 'rest': rest, 'global': 50,
+    return {'fam': 'bind', 'kind': kind, 'params': params, 'rest': rest, 'global': 50, 'forward': rng.random() < 0.25,
             'call': {'pos': posvals, 'named': named, 'lsplat': lsplat, 'msplat': msplat}}
 
 
@@ -371,7 +382,7 @@ def ret_render(stmts, k, ind):
                 out += ret_render(s['else'], k, ind + 1)
             out.append(sp + '}')
         elif kd == 'each':
-            out.append('%s@each $x%d in %s {' % (sp, s['id'], (', ' if s['sep'] == 'comma' else ' ').join(str(x) for x in s['items'])))
+            out.append('%s@each $x%d in %s {' % (sp, s['id'], (', ' if s['sep'] == 'comma' else ' ').join(str(x) for x in s['items']) or '()'))
             out += ret_render(s['body'], k, ind + 1)
             out.append(sp + '}')
         elif kd == 'for':
@@ -423,13 +434,15 @@ class RetGen:
         out = []
         for _ in range(r.choice([1, 2, 2, 3])):
             x = r.random()
+            if depth >= 3:
+                x = x * 0.4
             if x < 0.25:
                 out.append(self.tick())
             elif x < 0.40 and depth > 0:
                 out.append(self.ret(scope))
                 if r.random() < 0.6:
                     out.append(self.tick())        # dead code after a return
-            elif x < 0.65 or depth >= 3:
+            elif x < 0.65:
                 out.append({'k': 'if', 'cond': self.cond(scope), 'then': self.block(depth + 1, scope) + ([self.ret(scope)] if r.random() < 0.6 else []),
                             'else': (self.block(depth + 1, scope) + ([self.ret(scope)] if r.random() < 0.4 else [])) if r.random() < 0.4 else None})
             elif x < 0.85:
@@ -685,12 +698,13 @@ class ContentGen:
             body = self.items(1, j, False, False)
             if not any(it['k'] == 'content' for it in body) and r.random() < 0.8:
                 ar = self.mixins[j]['arity']
-                body.insert(r.randint(0, len(body)), {'k': 'content', 'arg': None if ar == 0 else r.choice([self.nval(), 'v'])})
+                hi = len(body) - 1 if body and body[-1]['k'] == 'each' else len(body)      # never after a loop that binds $v
+                body.insert(r.randint(0, hi), {'k': 'content', 'arg': None if ar == 0 else r.choice([self.nval(), 'v'])})
             self.mixins[j]['body'] = body
         main = self.items(0, None, False, False)
         if not any(it['k'] == 'include' for it in main):
             m = self.mixins[0]
-            main.append({'k': 'include', 'm': 0, 'arg': self.nval() if m['param'] else None,
+            main.insert(0, {'k': 'include', 'm': 0, 'arg': self.nval() if m['param'] else None,
                          'block': {'using': None if m['arity'] == 0 else 'v', 'body': [{'k': 'print', 'id': self.nid(), 'var': 'v'}]}})
         return {'fam': 'content', 'global': r.randint(1, 9), 'mixins': self.mixins, 'main': main}
 
@@ -795,7 +809,8 @@ def rules_of(out):
 def sig_prefix(case):
     f = case['fam']
     if f == 'bind':
-        return 'bind|%s' % case['kind']
+        names = [canon(n) for n, _ in case['call']['named']] + [canon(x[0]) for x in (case['call']['msplat'] or {'pairs': []})['pairs']]
+        return 'bind|%s%s' % (case['kind'], '|keyword-named-like-the-rest-parameter' if case['rest'] and 'rest' in names else '')
     if f == 'scope':
         return 'scope|callee=%s|call-site=%s|defined-in=%s' % (case['callee'], case['call_site'], case['def_site'])
     return f
@@ -854,11 +869,11 @@ def judge_result(ctx, case, b, k, r, rules=None):
         return ('undecided', 'driver-' + str(st))
     if b['exp'][0] == 'err':
         if st == 'ok':
-            return ('violation', '%s|missing-error|%s%s' % (pre, b['exp'][1], '|rest-parameter-declared' if case.get('rest') else ''),
+            return ('violation', '%s|missing-error|%s%s' % (pre, b['exp'][1].split(':')[0], '|rest-parameter-declared' if case.get('rest') else ''),
                     {'output': r.get('out', '')[:300]})
         return None
     if st == 'err':
-        return ('violation', '%s|unexpected-error%s' % (pre, ('|call=' + '+'.join(bind_features(case))) if case['fam'] == 'bind' else ''),
+        return ('violation', '%s|unexpected-error%s' % (pre, '|rest-parameter-declared' if case.get('rest') else ''),
                 {'error': r.get('err', '')[:400]})
     return compare(case, b, k, rules if rules is not None else rules_of(r.get('out', '')))
 
@@ -876,7 +891,7 @@ def record(ctx, case, b):
     ctx.seen('family', f)
     ctx.seen('expected-outcome', f + ':' + ('error:' + b['exp'][1].split(':')[0] if b['exp'][0] == 'err' else 'css'))
     if f == 'bind':
-        ctx.seen('bind-kind', case['kind'])
+        ctx.seen('bind-kind', case['kind'] + ('/through-forwarding-wrapper' if case.get('forward') else ''))
         ctx.seen('bind-call-shape', '+'.join(bind_features(case)) or 'no-arguments')
         ctx.seen('bind-declaration', '%d-params%s%s' % (len(case['params']), '+rest' if case['rest'] else '',
                                                          '+defaults' if any(p['def'] for p in case['params']) else ''))
